@@ -116,16 +116,20 @@ class DataSaveable:
         """
         shpl = list(self.data.shape)
         
+        # the array holds the axis and the data: its type has to hold both
+        # (an axis of real numbers next to whole-number data)
+        dtype = numpy.result_type(self.data.dtype, axis.data.dtype)
+        
         if len(shpl) == 2:
             shpl[1] += 1
             shp = tuple(shpl)
-            data = numpy.zeros(shp,dtype=self.data.dtype)
+            data = numpy.zeros(shp,dtype=dtype)
             data[:,1:] = self.data
             data[:,0] = axis.data     
         elif len(shpl) == 1:
             shpl.append(2)
             shp = tuple(shpl)
-            data = numpy.zeros(shp,dtype=self.data.dtype)
+            data = numpy.zeros(shp,dtype=dtype)
             data[:,1] = self.data
             data[:,0] = axis.data
         else:
@@ -145,10 +149,12 @@ class DataSaveable:
                 print("Data shape:", data.shape)
                 if data.shape[1] == 2:
                     print("Extracting from two columns")
-                    axis.data = data[:,0]
+                    # the axis is real also when it was stored with complex 
+                    # data
+                    axis.data = numpy.real(data[:,0])
                     return data[:,1]
                 elif data.shape[1] > 2:
-                    axis.data = data[:,0]
+                    axis.data = numpy.real(data[:,0])
                     return data[:,1:]
                 else:
                     raise Exception()
